@@ -108,7 +108,9 @@ func VerifC16Define() {
 		}
 	}
 	fi, ti := verifLen("from", 0, 2), verifLen("to", 0, 2)
-	verifAssume(fi != ti)
+	if verifParam("selfloop", 1) == 0 {
+		verifAssume(fi != ti)
+	}
 	// reachability to ~> from in the reference graph
 	reach := adj
 	for k := 0; k < 3; k++ {
@@ -123,6 +125,8 @@ func VerifC16Define() {
 	err := d.DefineRelationship(ctx, ids[fi], verifParent, ids[ti])
 	verifObserveBool("err", err != nil)
 	switch {
+	case fi == ti:
+		verifAssert("define-self-loop-rejected", err != nil)
 	case adj[fi][ti]:
 		verifAssert("define-existing-is-noop", err == nil)
 	case reach[ti][fi]:
